@@ -612,7 +612,7 @@ pub(crate) fn top_frame_has_output(l: &ZalsaLocal, key: DatabaseKeyIndex) -> boo
 #[cfg_attr(kani, kani::unwind(5))]
 #[cfg_attr(salsa_verif_replay, test)]
 fn k_zl_1_ownership_is_checked_against_the_innermost_query() {
-    let l = ZalsaLocal::new();
+    let l = crate::zalsa_local::verif::local_static();
     let a = vk::key(3, 1);
     let b = vk::key(4, 2);
     let s_id = vk::any_id();
@@ -643,7 +643,7 @@ pub(crate) fn remember_page(l: &mut ZalsaLocal, ingredient: IngredientIndex, pag
 fn k_zl_3_unfilled_pages_reach_the_pool_once() {
     use crate::table::verif::{page_index, take_recycled};
     let t = Table::default();
-    let mut l = ZalsaLocal::new();
+    let mut l = crate::zalsa_local::verif::local_static();
     let (i0, i1) = (IngredientIndex::new(0), IngredientIndex::new(1));
     let n0: usize = vk::any();
     vk::assume(n0 < 64);
@@ -707,23 +707,21 @@ pub(crate) fn local_on(cell: &mut crate::active_query::verif::StackCell) -> Zals
     }
 }
 
-#[cfg_attr(kani, kani::proof)]
-#[cfg_attr(kani, kani::unwind(5))]
-fn k_zl_1s_experiment() {
-    let mut cell = crate::active_query::verif::stack_cell();
-    let l = local_on(&mut cell);
-    let a = vk::key(3, 1);
-    let b = vk::key(4, 2);
-    let s_id = vk::any_id();
-    let s = DatabaseKeyIndex::new(IngredientIndex::new(9), s_id);
-    let fa = l.push_query(a);
-    assert!(!l.is_tracked_struct_of_active_query(s));
-    l.store_tracked_struct_id(crate::tracked_struct::verif::identity(9, 77, 0), s_id);
-    assert!(l.is_tracked_struct_of_active_query(s));
-    let fb = l.push_query(b);
-    assert!(!l.is_tracked_struct_of_active_query(s));
-    vcover!();
-    std::mem::forget(fb);
-    std::mem::forget(fa);
-    std::mem::forget(l);
+/// `ZalsaLocal::new()` for harnesses: under Kani the frames live in a static cell (a typed object for CBMC; one
+/// local state per harness - a second call fails the assertion, use `local_on` then); in replay runs, where the
+/// harnesses are ordinary parallel `#[test]`s, it is the real constructor.
+#[cfg(kani)]
+pub(crate) fn local_static() -> ZalsaLocal {
+    static mut CELL: crate::active_query::verif::StackCell = [const { std::mem::MaybeUninit::uninit() }; 4];
+    static mut USED: bool = false;
+    // SAFETY: single-threaded harness; handed out once
+    unsafe {
+        assert!(!USED, "verif: local_static() called twice in one harness");
+        USED = true;
+        local_on(&mut *std::ptr::addr_of_mut!(CELL))
+    }
+}
+#[cfg(not(kani))]
+pub(crate) fn local_static() -> ZalsaLocal {
+    ZalsaLocal::new()
 }
